@@ -123,3 +123,14 @@ Proof.
   - eexists. eexists. split; [vm_compute; reflexivity|]. split; vm_compute; reflexivity.
   - vm_compute. reflexivity.
 Qed.
+
+(* curve / surface mappings (pdim > ldim): the chain rule of a logical operator runs over ALL components of the
+   mapping; the index of [AMap m i] is not bounded by the logical dimension.  d/dx1 (2 M0 + 3 M1^2 + 4 M2^3) for a
+   surface mapping M : (x1,x2) -> (M0,M1,M2) contains the term of the third component *)
+Example C05_surface_mapping_chain_rule :
+  let m i := SAt (AMap "M" i []) in
+  let dm i := SAt (AMap "M" i [1]) in
+  exists r,
+    dop true 0 (SAdd [SMul [sZ 2; m 0]; SMul [sZ 3; SPow (m 1) (sZ 2)]; SMul [sZ 4; SPow (m 2) (sZ 3)]]) = Some r /\
+    tequiv (sx2t r) (sx2t (SAdd [SMul [sZ 2; dm 0]; SMul [sZ 6; m 1; dm 1]; SMul [sZ 12; SPow (m 2) (sZ 2); dm 2]])) = true.
+Proof. eexists. split; [vm_compute; reflexivity|]. vm_compute. reflexivity. Qed.
